@@ -3,6 +3,7 @@ NW = "src/pyunicorn/core/network.py"
 MPI = "src/pyunicorn/utils/mpi.py"
 CPYX = "src/pyunicorn/core/_ext/numerics.pyx"
 RN = "src/pyunicorn/core/resistive_network.py"
+CN = "src/pyunicorn/climate/climate_network.py"
 
 MUTANTS = [
  {"name": "c19_newman_last_chunk_short", "property": "C19", "edits": [
@@ -65,4 +66,20 @@ MUTANTS = [
 """, "")]},
  {"name": "c18_vcfb_includes_endpoint", "property": "C18", "edits": [
    ("src/pyunicorn/core/_ext/src_numerics.c", "if(i == t || i == s){", "if(i == t){")]},
+ {"name": "c09_ge_threshold", "property": "C09", "edits": [
+   (CN, "A[similarity_measure > threshold] = 1", "A[similarity_measure >= threshold] = 1")]},
+ {"name": "c09_keep_diagonal", "property": "C09", "edits": [
+   (CN, "        A.flat[::N+1] = 0\n", "")]},
+ {"name": "c09_density_complement", "property": "C09", "edits": [
+   (CN, "int((1-link_density) * (len(flat_corr)-self.N))", "int(link_density * (len(flat_corr)-self.N))")]},
+ {"name": "c09_non_local_no_regeneration", "property": "C09", "edits": [
+   (CN, """            self._non_local = non_local
+            #  Regenerate the climate network using the new setting
+            self.set_threshold(self.threshold())""", """            self._non_local = non_local""")]},
+ {"name": "c09_no_abs", "property": "C09", "edits": [
+   (CN, 'np.abs(similarity_measure.astype("float32"))', 'similarity_measure.astype("float32")')]},
+ {"name": "c09_density_includes_diagonal", "property": "C09", "edits": [
+   (CN, "int((1-link_density) * (len(flat_corr)-self.N))", "int((1-link_density) * len(flat_corr))")]},
+ {"name": "c09_non_local_compares_identity", "property": "C09", "edits": [
+   (CN, "if self.non_local() != non_local:", "if self.non_local() is not non_local and non_local:")]},
 ]
